@@ -67,13 +67,14 @@ const lawImports = `import (
 	xfp "scratchmod/x/fp"
 	xhlist "scratchmod/x/hlist"
 	xhttp "scratchmod/x/http"
+	ximage "scratchmod/x/image"
 	xjson "scratchmod/x/json"
 	xoption "scratchmod/x/option"
 	xproduct "scratchmod/x/product"
 	xseq "scratchmod/x/seq"
 )
 
-var _ = []any{xas.Level(0), xfmt.Level(0), xfp.Level(0), xhlist.Level(0), xhttp.Level(0), xjson.Level(0), xoption.Level(0), xproduct.Level(0), xseq.Level(0)}
+var _ = []any{xas.Level(0), xfmt.Level(0), xfp.Level(0), xhlist.Level(0), xhttp.Level(0), ximage.Level(0), xjson.Level(0), xoption.Level(0), xproduct.Level(0), xseq.Level(0)}
 var _ fmt.Stringer
 var _ image.Point
 var _ time.Duration
